@@ -155,4 +155,15 @@ CHECKS = {
         "note": "Trusted: pytransform3d transform manager / URDF parser. Colliding pairs whose AABBs miss by < 1e-9*L (grazing, inside C04's tolerance) are allowed but not required.",
         "technique": "explicit-state exploration of the configuration graph on the real BVH vs all-pairs reference model and fresh-object differential oracle",
     },
+    "C17": {
+        "text": ("212 parameter tuples over the six mesh factories: radii/sizes 1e-2..1e2, subdivision orders 0-3 (thorough 0-4), 3-4 resolution "
+                 "hints, every class boundary (cylinder length = diameter exactly and +-1e-15, 1e-13, 1e-9 relative; boxes with two or three "
+                 "equal sides exactly and perturbed by 1e-15..1e-9). Per mesh: every tetrahedron volume > 0 (clearly non-degenerate away "
+                 "from class boundaries), sum of volumes = convex-hull volume (1e-9), no repeated/duplicate elements, all vertices used, "
+                 "vertices inside the analytic shape, boundary potentials 0, medial potentials = inradius and at that depth, box/cube exact; "
+                 "volume/AABB/centre-of-mass helpers = direct computation; RigidBody.make_* = factory + pose."),
+        "design_ref": "DESIGN.md 5 C17",
+        "note": "Trusted: scipy ConvexHull volume. Orientation of the tetrahedra is not constrained by the statement (sphere/ellipsoid/cube are wound negatively; recorded in the evidence).",
+        "technique": "exhaustive enumeration of factory parameter lattices on the real code vs determinant/hull-volume/analytic-shape reference",
+    },
 }
